@@ -229,5 +229,5 @@ def strategy(draw):
 
 
 def subchecks(tier):
-    return [Sub("tomtom_reference", tomtom_case, strategy=strategy, n_quick=240, n_thorough=10000, shards_quick=4,
+    return [Sub("tomtom_reference", tomtom_case, strategy=strategy, n_quick=240, n_thorough=30000, shards_quick=4,
                 budget_quick=240.0)]
